@@ -50,6 +50,21 @@ CHECKS = {
  "C16": ("exploration", "permutation metamorphic monitor: 11 supply orders per FactSet and path family",
          "For each FactSet the Builder calls, binary records per section or text stanzas/rows are supplied in 11 orders (incl. reverse-topological, ancestor-first, descendant-first); all observations must equal the model and each other.",
          "one name per id, one replacement per term", "DESIGN.md §5 C16"),
+ "C13": ("exploration", "model-predicate oracle over generated subsets + in-place/copying twin comparison",
+         "On ontologies with obsolete, replaced and modifier terms every HpoSet operation is evaluated on ~12 subsets per ontology (empty, singleton, full, ancestor+descendant mixes, replacement collisions) and compared with predicates over the facts; each in-place operation is compared with its copying twin.",
+         "replacement ids resolve in the same ontology", "DESIGN.md §5 C13"),
+ "C14": ("exploration", "relational oracle of the sub-ontology against the source (BFS distances, induced links, annotation filter) + self-consistency walk",
+         "For ~8 (root, leaves) requests per generated source ontology the result is checked relationally (any shortest chain is acceptable): acceptance iff leaves are below root, retained terms on shortest chains, copied term data, induced links, preserved leaf distances, the keep/drop rule for genes and diseases incl. annotations on modifier roots, and closure/inheritance/IC of the result against its own facts.",
+         "chain count capped; release version of the result not judged", "DESIGN.md §5 C14"),
+ "C15": ("exploration", "Builder call-history monitor: model applies only calls that returned Ok; panic monitor over the whole read API",
+         "Random call histories over all typestates interleave failing and succeeding calls with absent ids adjacent to present ones; each call's Ok/Err is checked against presence of the referenced terms and the built ontology is walked under catch_unwind and compared with the model of the successful calls alone; every handed-out id must resolve.",
+         "successful add_parent calls are acyclic", "DESIGN.md §5 C15"),
+ "C17": ("exploration", "callback event log + dendrogram replay on a naive agglomerative model",
+         "For all four linkage methods the distance callback's invocations are logged and the returned clusters are checked structurally (binary tree over the inputs, index discipline, sizes, leaf order) and replayed step by step against a naive model (closest pair, reported distance, update rule); ties stop exact comparison only.",
+         "seeded symmetric tie-free distance; input sets pairwise distinct", "DESIGN.md §5 C17"),
+ "C18": ("exploration", "model diff of two FactSets vs all Comparison / delta accessors, single-edit catalogue + mirror/self/round-trip metamorphic checks",
+         "Pairs of ontologies that differ by exactly one edit of each of 12 kinds (every run) and by random edit bundles are compared; all twelve accessors and both delta types are checked against a model diff, the mirrored comparison against the mirrored model, self and round-trip comparisons must be empty.",
+         "replacement ids resolve in both ontologies", "DESIGN.md §5 C18"),
 }
 
 NOT_YET = {}
